@@ -30,7 +30,7 @@ RULE = ("seeded random graphs: grid with one grid meter or 1-4 arbitrary success
         "dedicated / mixed / load-only meters, battery inverters with 1-2 batteries, PV inverters, EV chargers, CHPs "
         "behind a CHP meter. distinct = canonical graph+assignment JSON; non-trivial = >=2 device classes present "
         "and >=1 meter")
-REQUIRED_BUCKETS = ["battery-fed-by-inverters-behind-different-meters", "formula-for-a-sub-set-of-the-devices", "no-grid-meter", "single-grid-meter", "several-grid-successors", "nested-meters",
+REQUIRED_BUCKETS = ["battery-fed-by-inverters-behind-different-meters", "graph-object-refreshed-from-another-topology", "formula-for-a-sub-set-of-the-devices", "no-grid-meter", "single-grid-meter", "several-grid-successors", "nested-meters",
                     "device-directly-under-grid", "grid-meter-over-one-device-kind-with-building-load", "mixed-meter", "dedicated-meter", "load-only-meter", "has-chp",
                     "has-battery", "has-pv", "has-ev", "fallback-formula-evaluated", "battery-behind-several-inverters"]
 REQUIRED_COUNTERS = ["formulas_evaluated", "balance_checks", "graphs_valid"]
@@ -170,7 +170,9 @@ def _build(case: dict[str, Any]) -> Any:
            "chp": (C.CHP, None)}
     comps = {Component(n, *cat[k]) for n, k in case["nodes"]}
     conns = {Connection(a, b) for a, b in case["edges"]}
-    return _MicrogridComponentGraph(comps, conns)
+    g = _MicrogridComponentGraph(comps, conns)
+    g._verif_input = (comps, conns)  # noqa: SLF001  (harness attribute: what the graph was built from)
+    return g
 
 
 def _evaluate(engine: Any, values: dict[int, float | None], rec: Any, depth: int = 0,
@@ -225,6 +227,28 @@ def check(case: dict[str, Any], rec: Any) -> None:
         rec.count("reject:" + type(e).__name__)
         return
     rec.count("graphs_valid")
+    # The connection manager keeps ONE graph object and refreshes it (refresh_from) when the microgrid is (re)connected:
+    # in 30 % of the cases the graph object first holds another topology (this one without one of its PV inverters /
+    # EV chargers), formulas are generated on it, and then it is refreshed to the topology under test.
+    devs = sorted(n for n, k in case["nodes"] if k in ("pvinv", "ev"))
+    if devs and (len(case["edges"]) * 7 + len(case["nodes"])) % 10 < 3:
+        drop = devs[len(case["edges"]) % len(devs)]
+        try:
+            old_graph = _build({"nodes": [x for x in case["nodes"] if x[0] != drop],
+                                "edges": [e for e in case["edges"] if drop not in e]})
+        except Exception:  # pylint: disable=broad-except
+            old_graph = None
+        if old_graph is not None:
+            connection_manager._CONNECTION_MANAGER = SimpleNamespace(component_graph=old_graph, api_client=None)  # noqa: SLF001
+            for cls in (GridPowerFormula, ConsumerPowerFormula, ProducerPowerFormula, PVPowerFormula, EVChargerPowerFormula,
+                        BatteryPowerFormula, CHPPowerFormula):
+                try:
+                    cls("old", ChannelRegistry(name="old"), MagicMock(), FormulaGeneratorConfig(component_ids=None, allow_fallback=True)).generate()
+                except Exception:  # pylint: disable=broad-except
+                    pass
+            old_graph.refresh_from(*graph._verif_input)  # noqa: SLF001
+            graph = old_graph
+            rec.bucket("graph-object-refreshed-from-another-topology")
     connection_manager._CONNECTION_MANAGER = SimpleNamespace(component_graph=graph, api_client=None)  # noqa: SLF001
     kinds = {n: k for n, k in case["nodes"]}
     children: dict[int, list[int]] = {n: [] for n in kinds}
